@@ -203,13 +203,13 @@ async def replace(collection: str, id_: Id, record: Record) -> bool:
     if replaced:
         logger.debug('replaced record with id %s in %s', id_, collection)
 
-        return False
+        return True
 
     else:
         await driver.insert(collection, dict(record, id=id_))
         logger.debug('inserted record with id %s in %s', id_, collection)
 
-        return True
+        return False
 
 
 async def remove(collection: str, filt: Optional[dict[str, Any]] = None) -> int:
